@@ -40,10 +40,17 @@ type expectContinueReader struct {
 }
 
 func (ecr *expectContinueReader) tryWriteContinue() {
-	if !ecr.resp.wroteContinue {
-		ecr.resp.wroteContinue = true
-		ecr.resp.conn.buf.WriteString("HTTP/1.1 100 Continue\r\n\r\n")
-		ecr.resp.conn.buf.Flush()
+	w := ecr.resp
+	w.continueMu.Lock()
+	defer w.continueMu.Unlock()
+
+	// the body may be read by another goroutine (the backend transport)
+	// than the one that writes the response: never write into a final
+	// response that has already begun
+	if !w.wroteContinue && !w.noContinue {
+		w.wroteContinue = true
+		w.conn.buf.WriteString("HTTP/1.1 100 Continue\r\n\r\n")
+		w.conn.buf.Flush()
 	}
 }
 
@@ -88,9 +95,9 @@ func (ecr *expectContinueReader) Peek(n int) ([]byte, error) {
 
 // check whether expectContinueReader has sent 100-Continue response
 func (ecr *expectContinueReader) WroteContinue() bool {
-	ecr.mu.Lock()
+	ecr.resp.continueMu.Lock()
 	wroteContinue := ecr.resp.wroteContinue
-	ecr.mu.Unlock()
+	ecr.resp.continueMu.Unlock()
 
 	return wroteContinue
 }
